@@ -16,7 +16,8 @@ CHECKS = {
          "rendered by the real library and compared. Seeded random libraries/pages (depth 3-4) are rendered as plain tags, through the dynamic "
          "component and through Component.render(slots=) and the observations validated by TLC against the same semantics. Disagreements are "
          "accepted only if they equal what a named, listed deviation of the specification predicts (KNOWN-FINDING).",
-         "Bounded: exhaustive to 3 (quick) / 4 (thorough: 643 k pages, ~40 min) page nodes over a fixed component library; beyond that sampled (incl. "
+         "Bounded: exhaustive to 3 page nodes over a fixed component library in both tiers (the 4-node enumeration - 643 k pages, 40 min - was run once "
+         "without a disagreement and then dropped from the thorough tier for time); beyond that sampled (incl. "
          "programs with on_render_before / on_render_after hooks). Well-formed programs "
          "only; constructs whose outcome the property does not determine are flagged as zones by the specification and skipped.",
          "§3, §4 C01"),
